@@ -7,7 +7,8 @@
    the pair round-trips: every non-NaN value and the canonical NaN). *)
 From Coq Require Import List NArith ZArith Bool.
 From NV Require Import Base.Percent Base.PercentProofs Text.TextBase Vcf.Values Vcf.ValuesProofs
-  Vcf.GenotypeProofs Vcf.SampleProofs Vcf.Span Vcf.Record Vcf.SpanProofs Vcf.Line Vcf.LineProofs Vcf.Header Vcf.HeaderProofs.
+  Vcf.GenotypeProofs Vcf.SampleProofs Vcf.Span Vcf.Record Vcf.SpanProofs Vcf.Line Vcf.LineProofs Vcf.Header Vcf.HeaderProofs
+  Vcf.LazyRec Vcf.LazyRecProofs Vcf.FrameProofs Vcf.LazyFileProofs.
 Import ListNotations.
 Open Scope N_scope.
 
@@ -177,6 +178,125 @@ Example c09_reused_buffer_state_matters :
   e_rows_into w_prs prev [FDef (NCount 1) TInteger] [dot] = Some [[Some (VInteger 7%Z)]] /\
   e_rows_into w_prs (map (fun _ => []) prev) [FDef (NCount 1) TInteger] [dot] = Some [[]].
 Proof. split; reflexivity. Qed.
+
+(* THE LAZY RECORD NEVER PANICS (NV.Vcf.LazyRec: read_record / read_field / read_line on the whole
+   remaining input, the eight bounds it stores, one `&buf[range]` per accessor of Fields, the
+   views of NV.Vcf.Line above them).  For EVERY byte string (any number of lines, CR anywhere, a
+   last line without LF, fewer than eight columns, invalid UTF-8 -- [valid] is any predicate),
+   every float parser and every header: a read_record that returns Ok leaves eight nondecreasing
+   bounds that end inside the buffer, has consumed exactly n bytes, and no accessor reaches a
+   slice out of range (LPanic is not a possible outcome of read + every accessor forced). *)
+Theorem c09_lazy_read_bounds : forall valid text n buf ends rest,
+  rd_record valid text = ROk n buf ends rest ->
+  length ends = 8%nat /\ chain 0 ends (length buf) /\ (n + length rest = length text)%nat.
+Proof. exact rd_record_bounds. Qed.
+Print Assumptions c09_lazy_read_bounds.
+
+Theorem c09_lazy_never_panics : forall valid prs_float h text,
+  lazy_run prs_float valid h text <> LPanic /\
+  ~ In LPanic (lazy_records prs_float valid h text).
+Proof. intros. split; [apply lazy_never_panics|apply lazy_records_never_panic]. Qed.
+Print Assumptions c09_lazy_never_panics.
+
+(* non-vacuity: the former panic class `...PASS<CR><TAB><LF>` is read Ok, with the CR kept in the
+   FILTER column, and a second record follows in the same reused Record *)
+Example c09_lazy_bounds_example :
+  let text := [115; 9; 53; 9; 46; 9; 65; 9; 46; 9; 46; 9; 80; 13; 9; 10;  115; 9; 54] in
+  rd_record (fun _ => true) text = ROk 16 [115; 53; 46; 65; 46; 46; 80; 13] [1; 2; 3; 4; 5; 6; 8; 8]%nat [115; 9; 54] /\
+  rd_record (fun _ => true) [115; 9; 54] = ROk 3 [115; 54] [1; 2; 2; 2; 2; 2; 2; 2]%nat [].
+Proof. vm_compute. split; reflexivity. Qed.
+
+(* LINE FRAMING (formerly only tested): a written line contains neither LF nor CR -- one more
+   premise on the float oracle: no CR in the text of a float -- so the terminator the writer
+   appends (LF; also CR LF) is removed by the readers' framing exactly where it was put, and the
+   line theorem holds for the text WITH its terminator, whatever follows it in the file *)
+Theorem c09_written_line_framing :
+  forall fmt_float (FOK : N -> Prop),
+  (forall b x, FOK b -> In x (fmt_float b) -> x <> 10 /\ x <> 13) ->
+  forall h r t rest,
+  rec_ok fmt_float FOK h r -> write_line fmt_float h r = Some t ->
+  ~ In 10 t /\ ~ In 13 t /\ frame (t ++ 10 :: rest) = t /\ frame (t ++ 13 :: 10 :: rest) = t.
+Proof.
+  intros fmt FOK He h r t rest Hok Hw.
+  destruct (written_line_frames fmt FOK He h r t rest Hok Hw) as [A B].
+  split; [apply (written_line_no_eol fmt FOK He h r t 10 Hok Hw); now left|].
+  split; [apply (written_line_no_eol fmt FOK He h r t 13 Hok Hw); now right|]. split; assumption.
+Qed.
+Print Assumptions c09_written_line_framing.
+
+Theorem c09_record_text_roundtrip :
+  forall fmt_float prs_float (FOK : N -> Prop),
+  (forall b, FOK b -> prs_float (fmt_float b) = Some b) ->
+  (forall b x, FOK b -> In x (fmt_float b) -> x <> 44 /\ x <> 9 /\ x <> 10 /\ x <> 59 /\ x <> 58) ->
+  (forall b, FOK b -> fmt_float b <> dot) ->
+  (forall b, FOK b -> fmt_float b <> []) ->
+  (forall b x, FOK b -> In x (fmt_float b) -> x <> 13) ->
+  forall h r t rest,
+  rec_ok fmt_float FOK h r -> write_line fmt_float h r = Some t ->
+  read_eager_text prs_float h (t ++ 10 :: rest) = Some (canon h r) /\
+  read_lazy_text prs_float h (t ++ 10 :: rest) = Some (canon h r) /\
+  read_eager_text prs_float h (t ++ 13 :: 10 :: rest) = Some (canon h r) /\
+  read_lazy_text prs_float h (t ++ 13 :: 10 :: rest) = Some (canon h r).
+Proof.
+  intros fmt prs FOK H1 H2 H3 H4 H5 h r t rest Hok Hw.
+  destruct (line_roundtrip fmt prs FOK H1 H2 H3 H4 h r t Hok Hw) as (A & B & _).
+  destruct (written_line_frames fmt FOK (float_eol fmt FOK H2 H5) h r t rest Hok Hw) as [F1 F2].
+  unfold read_eager_text, read_lazy_text. rewrite F1, F2. repeat split; assumption.
+Qed.
+Print Assumptions c09_record_text_roundtrip.
+
+(* THE FILE, lazy reader, at the level of the record BUFFER and BOUNDS: rec_ok records written
+   line by line (each line + LF) and read back with read_record into ONE reused lazy Record until
+   Ok(0): every call returns Ok with its line's byte count, the forced accessors give canon of
+   the written record, and the last call is Ok(0).  [valid] (UTF-8 validation) must accept the
+   byte strings made of bytes of the file (true of the crate's check when the lines are ASCII;
+   written lines are valid UTF-8 whenever the record's texts are) *)
+Theorem c09_lazy_file_roundtrip :
+  forall fmt_float prs_float (FOK : N -> Prop),
+  (forall b, FOK b -> prs_float (fmt_float b) = Some b) ->
+  (forall b x, FOK b -> In x (fmt_float b) -> x <> 44 /\ x <> 9 /\ x <> 10 /\ x <> 59 /\ x <> 58) ->
+  (forall b, FOK b -> fmt_float b <> dot) ->
+  (forall b, FOK b -> fmt_float b <> []) ->
+  (forall b x, FOK b -> In x (fmt_float b) -> x <> 13) ->
+  forall valid h rs ts,
+  Forall2 (fun r t => rec_ok fmt_float FOK h r /\ write_line fmt_float h r = Some t) rs ts ->
+  (forall s, (forall b, In b s -> b = 10 \/ exists t, In t ts /\ In b t) -> valid s = true) ->
+  exists l, lazy_records prs_float valid h (concat (map (fun t => t ++ [10]) ts)) = l ++ [LEof] /\
+            map lres_view l = map (fun r => Some (Some (canon h r))) rs.
+Proof. exact lazy_file_roundtrip. Qed.
+Print Assumptions c09_lazy_file_roundtrip.
+
+(* the bounds-level reader on ANY line with at least eight columns and no LF / CR, followed by LF
+   and anything: Ok(length + 1) and the forced views are NV.Vcf.Line.read_lazy of the line (the
+   model the line theorems are about) *)
+Theorem c09_lazy_bounds_agree_framed : forall valid prs_float h t rest,
+  ~ In 10 t -> ~ In 13 t -> (8 <= length (split_all 9 t))%nat ->
+  (forall s, (forall b, In b s -> In b (t ++ [10])) -> valid s = true) ->
+  exists f, lazy_run prs_float valid h (t ++ 10 :: rest) = LRec (S (length t)) f (read_lazy prs_float h t) rest.
+Proof. exact lazy_run_framed. Qed.
+Print Assumptions c09_lazy_bounds_agree_framed.
+
+(* still open (tested by the lzb / ltxt correspondence on arbitrary bytes): the same agreement for
+   EVERY text -- CR inside the line, fewer than eight columns, a last line without LF *)
+Definition c09_lazy_bounds_agree_full_statement : Prop :=
+  forall valid prs_float h text,
+  (forall s, (forall b, In b s -> In b text) -> valid s = true) -> mem 10 text = true ->
+  match lazy_run prs_float valid h text with
+  | LRec n f r rest => r = read_lazy prs_float h (frame text)
+  | LErr => read_lazy prs_float h (frame text) = None
+  | _ => False
+  end.
+
+(* the remaining part of the FILE statement: header lines + record lines in one text, read by
+   read_header (NV.Io.HeaderRead.hdr_closed, property C12) and then record by record by BOTH
+   readers, with the lookup tables of hctx computed from the parsed header (incl. reserved keys) *)
+Definition c09_file_roundtrip_full_statement
+  (header : Type) (hctx_of_header : header -> hctx)
+  (write_file : header -> list vrec -> option (list N))
+  (read_file_eager read_file_lazy : list N -> option (header * list vrec)) : Prop :=
+  forall hd rs text, write_file hd rs = Some text ->
+    read_file_eager text = Some (hd, map (canon (hctx_of_header hd)) rs) /\
+    read_file_lazy text = Some (hd, map (canon (hctx_of_header hd)) rs).
 
 (* FORMER DEFECT lazy-samples-dropped-format-missing (repaired, 6449b9b): samples without FORMAT keys
    are written ". . ."; the lazy record used to return no samples.  Now such records are inside
